@@ -185,6 +185,8 @@ let step line =
       Printf.printf "K %s %s\n" name (String.concat " " (List.map hex_of_fr (batch_inversion (List.map fr vs))))
   | ["K"; name; "lagr"; n; tau] ->
       Printf.printf "K %s %s\n" name (String.concat " " (List.map hex_of_fr (lagrange_all (domain_log (nat n)) (fr tau))))
+  | ["K"; name; "vcos"; n; d] ->
+      Printf.printf "K %s %s\n" name (String.concat " " (List.map hex_of_fr (vanishing_over_coset (domain_log (nat n)) (nat d))))
   | ["K"; name; "vanish"; n; tau] ->
       Printf.printf "K %s %s\n" name (hex_of_fr (vanishing_eval (domain_log (nat n)) (fr tau)))
   | "K" :: name :: "bary" :: n :: p :: evs ->
